@@ -30,6 +30,48 @@ example : Gen.insertMethods.length ≥ 4 := by decide
 
 /-! ## crash at any point of any workload of inserts -/
 
+/-- the crash theorem for a process that starts on any consistent store `db` (committed image = connection image,
+    no block open) — e.g. the store an earlier, killed process left behind -/
+theorem acked_survive_from (C : CommitMethod) (hC : wfCommit C = true) (db : Db) (hdb : Clean db)
+    (W : List Call) (hW : TopLevel W) (k j : Nat) :
+    visible (crashFrom C db W k j) = (specFrom (db.durable, db.acks) (W.take (if j ≤ 1 then k else k + 1))).1 ∧
+    (crashFrom C db W k j).acks = (specFrom (db.durable, db.acks) (W.take (if j ≤ 2 then k else k + 1))).2 := by
+  have h0 := runCalls_wf C hC (W.take k) (topLevel_take hW k) db hdb
+  unfold crashFrom
+  simp only [h0, visible_eq]
+  cases hk : W[k]? with
+  | none =>
+    have hlen : W.length ≤ k := by simpa using hk
+    have e1 : W.take (k + 1) = W.take k := by
+      rw [List.take_of_length_le hlen, List.take_of_length_le (by omega)]
+    by_cases h1 : j ≤ 1 <;> by_cases h2 : j ≤ 2 <;> simp [h1, h2, e1, specFrom]
+  | some c =>
+    have hc : wfInsertPath c.ops = true := hW c (List.mem_of_getElem? hk)
+    obtain ⟨t, pol, _, hops⟩ := wf_shape hc
+    have hs : specFrom (db.durable, db.acks) (W.take (k + 1)) =
+        match insertRow pol ⟨t, c.key, c.val⟩ (specFrom (db.durable, db.acks) (W.take k)).1 with
+        | some rows => (rows, (specFrom (db.durable, db.acks) (W.take k)).2 ++ [c.id])
+        | none => specFrom (db.durable, db.acks) (W.take k) := by
+      rw [take_succ_getElem W k c hk, specFrom_snoc, specStep_shape _ c t pol _ hops]
+      cases insertRow pol ⟨t, c.key, c.val⟩ (specFrom (db.durable, db.acks) (W.take k)).1 <;> rfl
+    simp only [hops]
+    rw [runPrims_wf C hC c t pol _ ⟨rfl, rfl⟩ j]
+    change _ = (specFrom (db.durable, db.acks) (W.take (if j ≤ 1 then k else k + 1))).1 ∧
+      _ = (specFrom (db.durable, db.acks) (W.take (if j ≤ 2 then k else k + 1))).2
+    cases hins : insertRow pol ⟨t, c.key, c.val⟩ (specFrom (db.durable, db.acks) (W.take k)).1 with
+    | none =>
+      rw [hins] at hs
+      simp only [specFrom] at hins hs ⊢
+      by_cases h1 : j ≤ 1 <;> by_cases h2 : j ≤ 2 <;> simp [h1, h2, hs, hins]
+    | some w =>
+      rw [hins] at hs
+      simp only [specFrom] at hins hs ⊢
+      match j with
+      | 0 => simp [hins]
+      | 1 => simp [hins]
+      | 2 => simp [hs, hins]
+      | j + 3 => simp [hs, hins]
+
 /-- **acked_survive.**  Kill the process after `k` complete insert calls and `j` primitives of call `k`
     (j = 0 before the INSERT, 1 after it, 2 after the commit, ≥ 3 after the return) and let a fresh process open
     the file.  What it sees is exactly the reference content (no transactions, no crash) of the first `k` calls
@@ -38,38 +80,8 @@ example : Gen.insertMethods.length ≥ 4 := by decide
     insert had returned is there, the in-flight record is there completely or not at all, nothing else is there. -/
 theorem acked_survive (C : CommitMethod) (hC : wfCommit C = true) (W : List Call) (hW : TopLevel W) (k j : Nat) :
     visible (crashAt C W k j) = (spec (W.take (if j ≤ 1 then k else k + 1))).1 ∧
-    (crashAt C W k j).acks = (spec (W.take (if j ≤ 2 then k else k + 1))).2 := by
-  have h0 := runCalls_init C hC (W.take k) (topLevel_take hW k)
-  unfold crashAt
-  simp only [h0, visible_eq]
-  cases hk : W[k]? with
-  | none =>
-    have hlen : W.length ≤ k := by simpa using hk
-    have e1 : W.take (k + 1) = W.take k := by
-      rw [List.take_of_length_le hlen, List.take_of_length_le (by omega)]
-    by_cases h1 : j ≤ 1 <;> by_cases h2 : j ≤ 2 <;> simp [h1, h2, e1]
-  | some c =>
-    have hc : wfInsertPath c.ops = true := hW c (List.mem_of_getElem? hk)
-    obtain ⟨t, pol, _, hops⟩ := wf_shape hc
-    have hs : spec (W.take (k + 1)) =
-        match insertRow pol ⟨t, c.key, c.val⟩ (spec (W.take k)).1 with
-        | some rows => (rows, (spec (W.take k)).2 ++ [c.id])
-        | none => spec (W.take k) := by
-      rw [take_succ_getElem W k c hk, spec_snoc, specStep_shape _ c t pol _ hops]
-      cases insertRow pol ⟨t, c.key, c.val⟩ (spec (W.take k)).1 <;> rfl
-    simp only [hops]
-    rw [runPrims_wf C hC c t pol _ ⟨rfl, rfl⟩ j]
-    cases hins : insertRow pol ⟨t, c.key, c.val⟩ (spec (W.take k)).1 with
-    | none =>
-      rw [hins] at hs
-      by_cases h1 : j ≤ 1 <;> by_cases h2 : j ≤ 2 <;> simp [h1, h2, hs]
-    | some w =>
-      rw [hins] at hs
-      match j with
-      | 0 => simp
-      | 1 => simp
-      | 2 => simp [hs]
-      | j + 3 => simp [hs]
+    (crashAt C W k j).acks = (spec (W.take (if j ≤ 2 then k else k + 1))).2 :=
+  acked_survive_from C hC Db.init ⟨rfl, rfl⟩ W hW k j
 
 /-- the same for workloads built from the generated methods and the generated `Database.commit` -/
 theorem acked_survive_generated (W : List Call)
@@ -105,6 +117,40 @@ example :
 example :
     let W : List Call := [⟨0, [.exec 0 .orIgnore, .ret], 7, 70⟩]
     (crashAt Gen.commitMethod W 1 0).acks = [0] ∧ visible (crashAt Gen.commitMethod W 1 0) = [] := by decide
+
+/-! ## any number of kill / restart cycles -/
+
+/-- **kill_restart_cycles.**  A file goes through any number of process lifetimes; each runs any workload of inserts
+    and is killed at any point `(k, j)`; the next process starts on what is left.  What the last fresh process sees
+    is the reference content of the concatenation of the calls that had committed in each lifetime — every kill is
+    as harmless as the first one. -/
+theorem kill_restart_cycles (C : CommitMethod) (hC : wfCommit C = true) (ls : List Life)
+    (hls : ∀ l ∈ ls, TopLevel l.W) :
+    visible (runLives C Db.init ls) = (spec (ls.flatMap Life.survivors)).1 := by
+  suffices h : ∀ (db : Db), Clean db →
+      visible (runLives C db ls) = (specFrom (db.durable, db.acks) (ls.flatMap Life.survivors)).1 from
+    h Db.init ⟨rfl, rfl⟩
+  induction ls with
+  | nil => intro db hdb; simp [runLives, specFrom, visible_eq]
+  | cons l rest ih =>
+    intro db hdb
+    have h1 := (acked_survive_from C hC db hdb l.W (hls l (by simp)) l.k l.j).1
+    have ih' := ih (fun x hx => hls x (by simp [hx])) (recover (crashFrom C db l.W l.k l.j)) (recover_clean _)
+    simp only [runLives, List.foldl_cons] at ih' ⊢
+    rw [ih']
+    simp only [List.flatMap_cons, specFrom, List.foldl_append]
+    have e : (recover (crashFrom C db l.W l.k l.j)).durable
+        = (List.foldl specStep (db.durable, db.acks) l.survivors).1 := by
+      rw [visible_eq] at h1; exact h1
+    rw [e]
+    exact specFrom_fst_indep _ _ _ _
+
+/-- non-vacuity: two lifetimes; the first is killed after the INSERT of its 2nd call, the second after the commit
+    of its 1st call -/
+example :
+    let ins (i k : Nat) : Call := ⟨i, [.exec 0 .orIgnore, .callCommit, .ret], k, k⟩
+    visible (runLives Gen.commitMethod Db.init [⟨[ins 0 1, ins 1 2], 1, 1⟩, ⟨[ins 2 2, ins 3 3], 0, 2⟩])
+      = [⟨0, 1, 1⟩, ⟨0, 2, 2⟩] := by decide
 
 /-! ## the property text, clause by clause (corollaries of `acked_survive`) -/
 
@@ -239,7 +285,7 @@ theorem deferred_block_atomic (C : CommitMethod) (hC : wfCommit C = true) (pre b
   obtain ⟨d1, d2, _, d4, d5⟩ := runCalls_deferred C hC blk hblk
     { durable := (spec pre).1, work := (spec pre).1, defer := 1, acks := (spec pre).2 } (by simp)
   have hspec : (spec (pre ++ blk)).1 = (blk.foldl specStep ((spec pre).1, (spec pre).2)).1 := by
-    simp [spec, List.foldl_append]
+    simp [spec, specFrom, List.foldl_append]
   generalize runCalls C blk
     { durable := (spec pre).1, work := (spec pre).1, defer := 1, acks := (spec pre).2 } = s3 at d1 d2 d4 d5
   simp only [] at d1 d2 d4 d5
@@ -262,22 +308,28 @@ example :
 
 /-- **the database opens again without error** (IdentityDatabase): whatever state a kill left the file in — also a
     kill between the statements of the schema script of an earlier `open()`, each of which commits on its own —
-    `open()` succeeds, and once it completes the schema and the version row are there.  Needs: the handler around
-    the version-row read covers the empty result (StopIteration), the script creates all tables and ends by
-    inserting the version row — all read off the current source. -/
+    `open()` succeeds (no statement of the script raises: tables are created IF NOT EXISTS, the version row is deleted
+    before it is inserted), and once it completes the schema and the version row are there.  The flag part is decided
+    on the generated handler list and script for all four (option table, version row) start states and every prefix
+    of the script; the table part is proved for every start state. -/
 theorem reopen_never_fails_identity :
     OpenSafe Gen.versionHandlers Gen.schemaIdentityDatabase Gen.tablesIdentityDatabase :=
-  openSafe_of _ _ _ (by decide) (by decide) (by decide) ⟨Gen.schemaIdentityDatabase.dropLast, by decide⟩
+  openSafe_of _ _ _ (by decide) (by decide)
 
 /-- the same for AttestationsDB -/
 theorem reopen_never_fails_wallet :
     OpenSafe Gen.versionHandlers Gen.schemaAttestationsDB Gen.tablesAttestationsDB :=
-  openSafe_of _ _ _ (by decide) (by decide) (by decide) ⟨Gen.schemaAttestationsDB.dropLast, by decide⟩
+  openSafe_of _ _ _ (by decide) (by decide)
 
 /-- what the handler list is for (the behaviour before commit fdb0f78): killed after `CREATE TABLE option`,
     before the version row is inserted, the next open fails -/
 example :
-    (openDb [.operationalError] Gen.schemaIdentityDatabase 4 {}).bind
-      (fun s => openDb [.operationalError] Gen.schemaIdentityDatabase 6 s) = none := by decide
+    openOk [.operationalError] Gen.schemaIdentityDatabase
+      (openKilled [.operationalError] Gen.schemaIdentityDatabase 4 {}) = false := by decide
+
+/-- and what `DELETE … database_version` is for: without it the second open raises on the duplicate version row -/
+example :
+    openOk Gen.versionHandlers [.createOption, .insertVersion]
+      (openEnd [.createOption, .insertVersion] {}) = false := by decide
 
 end Ipv8.C19
